@@ -6,7 +6,7 @@ SockFramer.tla - the composition RTCMReader over SocketWrapper (last sentence of
      over the wrapper delivers what the reader over a file delivers (SameMessages,
      SameReports, Drained), SockBuf's invariants hold inside the composition, the run ends.
  (B) spec -> code: TLC's simulation of the same module emits finished behaviours
-     (source, receive script, options, outputs); every one is executed on the REAL
+     (bytes on the wire, receive script, options, outputs); every one is executed on the REAL
      RTCMReader over the REAL SocketWrapper over a socket double that answers recv()
      exactly as on the behaviour (timeouts tied to the byte position at which the
      specification placed them), and the observable outputs - returned frames, handler
@@ -23,10 +23,13 @@ CONSTANTS BufSize = %(bufsize)d
  MaxItems = %(items)d
  MaxFail = %(fails)d
  DefinedMids = {%(mids)s}
+ ChunkMode = %(chunked)s
+ AllCuts = %(allcuts)s
  Record = %(record)s
 INVARIANT SameMessages
 INVARIANT SameReports
 INVARIANT Drained
+INVARIANT DeliveredIsSource
 INVARIANT SockPrefixOK
 INVARIANT SockSizeOK
 %(extra)s
@@ -34,8 +37,9 @@ CHECK_DEADLOCK FALSE
 """
 
 
-def mc(rep, items, bufsize, fails, mids, workers=8, heap="3g"):
-    cfg = CFG % dict(bufsize=bufsize, items=items, fails=fails, mids=", ".join(map(str, mids)), record="FALSE", extra="PROPERTY Ends")
+def mc(rep, items, bufsize, fails, mids, workers=8, heap="3g", chunked=False, allcuts=False):
+    cfg = CFG % dict(bufsize=bufsize, items=items, fails=fails, mids=", ".join(map(str, mids)), record="FALSE", extra="PROPERTY Ends",
+                     chunked="TRUE" if chunked else "FALSE", allcuts="TRUE" if allcuts else "FALSE")
     res = tlc.run("SockFramer", cfg, workers=workers, heap=heap, coverage=True, timeout=3000)
     tlc.must_ok(res, f"SockFramer items={items} bufsize={bufsize}")
     cov = res.action_coverage()
@@ -44,7 +48,7 @@ def mc(rep, items, bufsize, fails, mids, workers=8, heap="3g"):
     if dead:
         raise MachineryFailure(f"SockFramer: actions never taken: {dead}")
     rep.add_tlc(res)
-    rep.notes.setdefault("mc_sockframer", []).append({"items": items, "bufsize": bufsize, "fails": fails, "states": res.distinct,
+    rep.notes.setdefault("mc_sockframer", []).append({"items": items, "bufsize": bufsize, "fails": fails, "chunked": chunked, "states": res.distinct,
                                                       "coverage": {a: cov[a][1] for a in need}})
     return res
 
@@ -87,7 +91,7 @@ class PositionSocket(socket.socket):
         return self.pos >= len(self.data) and not any(self.failpos.values())
 
 
-def run_real(src, script, opts, bufsize):
+def run_real(src, script, opts, bufsize, chunked=False):
     """-> list of (ev, cls, raw bytes) observed on the real reader over the real wrapper"""
     from pyrtcm import RTCMReader
 
@@ -101,7 +105,8 @@ def run_real(src, script, opts, bufsize):
     sock = PositionSocket(src, script)
     try:
         with common.watchdog(60):
-            rdr = RTCMReader(sock, validate=validate, parsed=parsed, quitonerror=quit_, errorhandler=on_err, bufsize=bufsize)
+            rdr = RTCMReader(sock, validate=validate, parsed=parsed, quitonerror=quit_, errorhandler=on_err, bufsize=bufsize,
+                             encoding=1 if chunked else 0)
             for _ in range(len(src) + len(script) + 10):
                 try:
                     raw, msg = rdr.read()
@@ -136,8 +141,9 @@ def same(exp, got):
     return True
 
 
-def replay(rep, num, items, bufsize, fails, mids, depth=400):
-    cfg = CFG % dict(bufsize=bufsize, items=items, fails=fails, mids=", ".join(map(str, mids)), record="TRUE", extra="INVARIANT RunOut")
+def replay(rep, num, items, bufsize, fails, mids, depth=600, chunked=False):
+    cfg = CFG % dict(bufsize=bufsize, items=items, fails=fails, mids=", ".join(map(str, mids)), record="TRUE", extra="INVARIANT RunOut",
+                     chunked="TRUE" if chunked else "FALSE", allcuts="TRUE")
     res = tlc.run("SockFramer", cfg, workers=1, heap="1g", extra=["-simulate", f"num={num}", "-depth", str(depth), "-seed", str(11 + common.seed())],
                   timeout=1500)
     if res.invariant or res.error:
@@ -156,15 +162,15 @@ def replay(rep, num, items, bufsize, fails, mids, depth=400):
     for _, src, script, opts, outs in runs:
         src = bytes(src)
         exp = [(o[0], o[1], bytes(o[2])) for o in outs]
-        got = run_real(src, list(script), (int(opts[0]), bool(opts[1]), int(opts[2])), bufsize)
+        got = run_real(src, list(script), (int(opts[0]), bool(opts[1]), int(opts[2])), bufsize, chunked)
         nfail += any(e == -1 for e in script)
         nmulti += len([e for e in script if e > 0]) > 2
         rep.case(digest([src.hex(), list(script), list(opts)]), nontrivial=len(exp) > 0 and len(script) > 2)
         if not same(exp, got):
             rep.reject("CompositionReplay", {"engine": "sockframer", "quit": int(opts[2]), "parsed": bool(opts[1])},
-                       {"engine": "sockframer", "stream_hex": src.hex(), "recv_script": list(script), "bufsize": bufsize,
+                       {"engine": "sockframer", "stream_hex": src.hex(), "recv_script": list(script), "bufsize": bufsize, "chunked": chunked,
                         "options": {"validate": int(opts[0]), "parsed": bool(opts[1]), "quitonerror": int(opts[2])},
                         "expected": [(e, c, r.hex()) for e, c, r in exp], "observed": [(e, c, r.hex()) for e, c, r in got]})
     rep.count("traces_validated_against_impl", len(runs))
-    rep.notes["sockframer_replay"] = {"behaviours": len(runs), "with_boundary_timeout": nfail, "with_3_or_more_receives": nmulti}
+    rep.notes.setdefault("sockframer_replay", []).append({"chunked": chunked, "bufsize": bufsize, "behaviours": len(runs), "with_boundary_timeout": nfail, "with_3_or_more_receives": nmulti})
     return len(runs)
